@@ -354,4 +354,3 @@ func (e *typeEnv) jsonOf(t *idl.Type, v *gval) string {
 	}
 	return "null"
 }
-
